@@ -64,8 +64,8 @@ fn main() {
     ctx.begin();
 
     // buffer size, learnt from the length of the slice the reader hands to Read::read
-    let (_, stats) = run_library(b"1", &[R::Int(Ty::U8)], &[], &[]);
-    let buf = stats.borrow().buf_len_first;
+    // (guarded: on a broken tree even this probe may panic; the regression replays above report it)
+    let buf = vcore::catch(|| run_library(b"1", &[R::Int(Ty::U8)], &[], &[]).1.borrow().buf_len_first).unwrap_or(0);
     ctx.extra("discovered_reader_buffer_size", serde_json::json!(buf));
     println!("reader buffer size discovered: {}", buf);
 
